@@ -418,6 +418,27 @@ def _r19_2(c, R, spec):
             for f in idf:
                 R.inst("R19.2", "collision-id-source:%s" % f, isinstance(got, dict) and got.get(f) == py(src.f[f]) and f in got, sp=mk["sp"],
                        expect="self.%s" % f, got=got.get(f) if isinstance(got, dict) else got)
+        # the identity is the *type*, not something derived from it: evaluated at every type string the crate's own tables know
+        # (seed C19-6: type replaced by its file extension makes `ejb` / `maven-plugin` / `bundle` rivals of `jar`)
+        from lib import hir as H
+        lits = set()
+        for b in c.bodies:
+            if isinstance(b.get("body"), dict) and "coord" in b["key"]:
+                for n in H.walk(b["body"]):
+                    if n.get("k") in ("pexpr", "plit", "lit"):
+                        v = (n.get("lit") or {}).get("v") if n.get("k") == "lit" else n.get("v", (n.get("lit") or {}).get("v") if isinstance(n.get("lit"), dict) else None)
+                        if isinstance(v, str) and v and len(v) <= 16 and v.replace("-", "").isalpha() and v.islower():
+                            lits.add(v)
+        probes = sorted(lits | {"jar", "ejb", "test-jar", "maven-plugin", "bundle", "pom", "war"})
+        bad = []
+        for t in probes:
+            for cl in ("C", None):
+                r2 = E.run(mk, [coord("G", "A", "V", cl, t)])
+                g2 = py(r2) if isinstance(r2, St) else None
+                if not (isinstance(g2, dict) and g2.get("type_") == t and g2.get("group") == "G" and g2.get("artifact") == "A"):
+                    bad.append((t, cl, g2.get("type_") if isinstance(g2, dict) else g2))
+        R.inst("R19.2", "collision-id:type-is-the-type-for-every-known-type", not bad, sp=mk["sp"], expect="type_ == self.type_ for %d type strings" % len(probes),
+               got=bad[:6], detail="two dependencies conflict only when group, artifact, classifier and type are all equal")
     cu = _role(c, R, "R19.2", "fn (Vec<Tree<FoundDependency>>) -> Vec<Tree<FoundDependency>> [clean_up_dependencies]",
                lambda b: len(_ins(b)) == 1 and _ins(b)[0].startswith("alloc::vec::Vec<%s<%s" % (TREE, FOUND)) and _out(b).startswith("alloc::vec::Vec<%s<%s" % (TREE, FOUND)),
                prefer="clean_up_dependencies")
